@@ -657,8 +657,131 @@ def check_c11(tier, seed):
         rd.cleanup()
 
 
-CHECKS = {"C01": check_c01, "C02": check_c02, "C03": check_c03, "C05": check_c05, "C06": check_c06, "C07": check_c07,
-          "C08": check_c08, "C11": check_c11, "C12": check_c12}
+# ----------------------------------------------------------------------------------------------
+# C04 / C09: scheduled multi-thread runs
+# ----------------------------------------------------------------------------------------------
+def generated_flag(name):
+    import re
+    src = open(os.path.join(vlib.COQ, "gen", "Consts.v")).read()
+    m = re.search(r"Definition %s : bool := (true|false)\." % name, src)
+    return (m.group(1) == "true") if m else None
+
+
+def thread_check(prop, tier, seed, scenarios, rule, sample):
+    import threads as T
+    from concurrent.futures import ThreadPoolExecutor
+    rep = Report(prop, tier, seed, "proof")
+    b = vlib.build(release=False)
+    gate = vlib.proof_gate(prop, b)
+    rd = RunDir()
+    rng = random.Random(seed)
+    failed = 0
+    conf_steps = 0
+    try:
+        if b.cargo_ok and b.extract_ok:
+            atomic = generated_flag("begin_atomic")
+            jobs = []
+            for (name, ths, nsteps, pre, limit, np_, mode) in scenarios:
+                scheds = T.schedules(len(ths), nsteps, pre, rng, limit)
+                for k, sc in enumerate(scheds):
+                    # mode: "coarse" = few yield points incl. the one between header read and registration (oracle only);
+                    #       "fine" = the yield set the Coq transition system follows step by step (oracle + conformance)
+                    if mode == "coarse":
+                        jobs.append((name, ths, sc, T.YIELDS_COARSE, False, np_))
+                    else:
+                        jobs.append((name, ths, sc, T.YIELDS_MODEL, True, np_))
+            for (name, ths, sc, yl) in T.CORPUS.get(prop, []):
+                jobs.insert(0, (name, ths, sc, yl, False, 64))
+
+            def one(j):
+                name, ths, sc, yl, conf, np_ = j
+                d = rd.sub()
+                rc, out = T.run_script(d, ths, sc, yl, init=3, num_pages=np_)
+                r = T.parse_output(out)
+                bad = T.oracle(ths, 3, r, rc)
+                mism, ns = ([], 0)
+                if conf and not r["stuck"]:
+                    mism, ns = T.conformance(d, out, ths, yl, bool(atomic))
+                shutil.rmtree(d, ignore_errors=True)
+                return j, out, bad, mism, ns
+
+            with ThreadPoolExecutor(vlib.NPROC) as ex:
+                results = list(ex.map(one, jobs))
+            reported = set()
+            for (name, ths, sc, yl, conf, np_), out, bad, mism, ns in results:
+                rep.count(name, "%s %s %s" % (ths, sc, conf), True)
+                conf_steps += ns
+                mine = [m for (pp, m) in bad if pp == prop or (prop == "C09" and pp == "C05")]
+                other = [m for (pp, m) in bad if pp != prop]
+                problems = list(mine)
+                if mism and not bad:
+                    problems.append("conformance: " + mism[0][:300])
+                if not problems and other and prop == "C04":
+                    continue
+                if problems:
+                    failed += 1
+                    key = problems[0][:50]
+                    if key in reported or len(reported) >= 3:
+                        continue
+                    reported.add(key)
+                    is_conf = problems[0].startswith("conformance")
+                    rep.violation("%s threads=%s schedule=%s: %s" % (name, ths, sc, problems[0]),
+                                  dict(kind="schedule", property=prop, threads=ths, schedule=sc, yields=yl, init=3, num_pages=np_,
+                                       problems=problems, trace=out.split("\n")[:80],
+                                       how="harness `threads <db> <script>` with script = yield/thread/init/sched lines; a grant lets one "
+                                           "thread run from its current yield point to the next"),
+                                  no_input=is_conf)
+        rep.cov["rule"] = rule
+        rep.sample(sample)
+        rep.cov["traces_validated_against_impl"] = rep.cov["evaluations"]
+        rep.cov["conformance_steps_model_vs_library"] = conf_steps
+        rep.cov["generated_begin_atomic"] = generated_flag("begin_atomic")
+        fill_proof_cov(rep, gate, TRUSTED_COMMON + ["hook-driven turn scheduler in the harness (harness/src/sched.rs); std::sync lock semantics; "
+                                                    "RwLock fairness left nondeterministic in the model"])
+        gate_or_search(rep, prop, b, gate, failed > 0)
+        return rep.finish()
+    finally:
+        rd.cleanup()
+
+
+def check_c04(tier, seed):
+    q = tier == "quick"
+    scen = [("1 reader vs 2 writers (coarse, exhaustive)", ["r", "w", "w"], 4, 2, 100000, 64, "coarse"),
+            ("2 readers vs 2 writers (coarse)", ["r", "r", "w", "w"], 4, 2, 150 if q else 100000, 64, "coarse"),
+            ("1 reader vs 3 writers (coarse)", ["r", "w", "w", "w"], 4, 2, 150 if q else 100000, 64, "coarse"),
+            ("1 reader vs 2 writers (fine)", ["r", "w", "w"], 9, 2, 100 if q else 3000, 64, "fine"),
+            ("reader vs growing writer (fine)", ["r", "W", "w"], 10, 2, 40 if q else 1500, 40, "fine")]
+    return thread_check("C04", tier, seed, scen,
+                        "scheduled runs of the real library: schedules that run one thread for k1 grants, preempt it for a second thread for k2 "
+                        "grants, preempt that for a third for k3 (<= 2 preemptions), then round-robin; coarse yield set {after header read, before "
+                        "header write}: ALL such schedules with k <= 4 for 1 reader vs 2 page-reusing writers, sampled for 2 readers / 3 writers; "
+                        "fine yield set (11 points): sampled, replayed step by step in the extracted Coq transition system (arrival points, tx ids, "
+                        "lock probes, registered readers); readers read all keys at begin, mid-way and at the end: one committed generation, equal "
+                        "to the snapshot id they registered, at least as new as every commit completed before their begin; corpus: the D10 "
+                        "schedule; non-trivial = every run; distinct by (threads, schedule, yield set)",
+                        dict(threads=["r", "w", "w"], schedule=[0, 1, 1, 1, 2, 2, 0, 0], yields="coarse",
+                             meaning="reader parks after reading the header; writer A commits; writer B writes its data; reader continues"))
+
+
+def check_c09(tier, seed):
+    q = tier == "quick"
+    scen = [("3 writers (coarse, exhaustive)", ["w", "w", "w"], 3, 2, 100000, 64, "coarse"),
+            ("3 writers (fine)", ["w", "w", "w"], 10, 2, 80 if q else 2500, 64, "fine"),
+            ("2 writers + reader (fine)", ["w", "w", "r"], 10, 2, 80 if q else 2500, 64, "fine"),
+            ("growing writer + writer + 2 readers (fine)", ["W", "w", "r", "r"], 11, 2, 80 if q else 2500, 40, "fine")]
+    return thread_check("C09", tier, seed, scen,
+                        "scheduled runs of the real library (<= 2 preemptions, then round-robin; exhaustive for 3 writers at the coarse yield "
+                        "set, sampled otherwise): 2-3 writer threads doing read-increment-write of one generation counter over 16 keys, 1-2 "
+                        "readers, including a commit that must extend and remap the file while readers hold the map; oracle: all threads finish "
+                        "(no STUCK), overlap flag 0, committed generations are exactly init+1..init+n (no lost update), final counter, DB::check; "
+                        "fine runs are replayed in the Coq transition system: a granted thread that does not arrive although the model says it is "
+                        "enabled (or arrives although the model says it blocks) is a conformance failure; non-trivial = every run",
+                        dict(threads=["W", "w", "r", "r"], schedule=[2, 2, 2, 0, 0, 0, 0, 3, 3],
+                             meaning="a reader holds the map while a writer has to remap: the writer must wait and then proceed"))
+
+
+CHECKS = {"C01": check_c01, "C02": check_c02, "C03": check_c03, "C04": check_c04, "C05": check_c05, "C06": check_c06,
+          "C07": check_c07, "C08": check_c08, "C09": check_c09, "C11": check_c11, "C12": check_c12}
 
 
 def main(argv):
